@@ -266,6 +266,55 @@ func cmpForms() []form {
 	return out
 }
 
+// builtinNames are data keys that are also built-in functions of the expression library and / or
+// registered template functions: as data keys they are ordinary names (docs/expressions.md uses
+// count, docs/funcmap.md len / title / type as functions).
+var builtinNames = []string{"count", "type", "title", "trim", "upper", "lower", "int", "string",
+	// built-ins of the expression library that are not registered template functions
+	// (open finding C03-builtin-named-variable-next-to-call)
+	"first", "last", "sum", "filter", "keys", "date"}
+
+var unshadowedBuiltins = map[string]bool{"first": true, "last": true, "sum": true, "filter": true, "keys": true, "date": true}
+
+// callForms combine such a variable with a call of a registered template function in one
+// expression: with li = [1] and nl = [], `len(li) > 0 && count` and `len(nl) > 0 || count` have
+// the truthiness of the bool count.
+func callForms() []form {
+	var out []form
+	add := func(name, expr string, data func(v any) map[string]any) {
+		out = append(out, form{name: "with a function call: " + name, path: expr, neg: "!(" + expr + ")",
+			skip: func(v vals.V) bool { return v.K != "bool" },
+			data: func(v any, _ bool) map[string]any {
+				d := data(v)
+				d["li"], d["nl"] = []any{1}, []any{}
+				return d
+			}})
+	}
+	for i, name := range builtinNames {
+		name := name
+		one := func(v any) map[string]any { return map[string]any{name: v} }
+		switch i % 3 {
+		case 0:
+			add("len(li) > 0 && "+name, "len(li) > 0 && "+name, one)
+		case 1:
+			add(name+" && len(li) > 0", name+" && len(li) > 0", one)
+		default:
+			add("len(nl) > 0 || "+name, "len(nl) > 0 || "+name, one)
+		}
+	}
+	// numbers: count is 3 for true and 0 for false
+	num := func(v any) map[string]any {
+		if v == true {
+			return map[string]any{"count": 3, "li3": []any{1, 2, 3}}
+		}
+		return map[string]any{"count": 0, "li3": []any{1, 2, 3}}
+	}
+	add("len(li3) > 0 && count > 0", "len(li3) > 0 && count > 0", num)
+	add("count == len(li3)", "count == len(li3)", num)
+	add("int(count) > 0 && count > 0", "int(count) > 0 && count > 0", num)
+	return out
+}
+
 func mapWith(key string, val any, missing bool) map[string]any {
 	m := map[string]any{}
 	if !missing {
@@ -388,6 +437,7 @@ func allForms() []form {
 	out := append([]form(nil), forms...)
 	out = append(out, promotedForms()...)
 	out = append(out, funcNameForms()...)
+	out = append(out, callForms()...)
 	return append(out, cmpForms()...)
 }
 
@@ -447,6 +497,19 @@ func excludedPositions(v vals.V, open map[string]bool) map[string]string {
 			}
 			if v.K != "bool" || stackOnlyPosition(p) {
 				out[p] = fClassNot
+			}
+		}
+	}
+	if open[fBuiltinVar] && v.K == "bool" {
+		for _, p := range positionNames() {
+			if !strings.HasPrefix(p, "with a function call: ") {
+				continue
+			}
+			expr, _, _ := strings.Cut(strings.TrimPrefix(p, "with a function call: "), " / ")
+			for _, w := range strings.FieldsFunc(expr, func(r rune) bool { return !(r >= 'a' && r <= 'z') }) {
+				if unshadowedBuiltins[w] {
+					out[p] = fBuiltinVar
+				}
 			}
 		}
 	}
